@@ -153,7 +153,8 @@ def inline_senders(rng, script):
     out = []
     for l in script:
         w = l.split()[0]
-        if w in ("sysevent", "broadcast", "entevent", "run") and rng.random() < 0.5: out.append("d" + l)
+        if w == "run" and rng.random() < 0.3: out.append("i" + l)       # `SystemCommand::apply(world)` in-line, no flush first
+        elif w in ("sysevent", "broadcast", "entevent", "run") and rng.random() < 0.5: out.append("d" + l)
         else: out.append(l)
         if rng.random() < 0.08: out.append("flush")
     return out
